@@ -98,6 +98,32 @@ def run_qty_pair(w, tname, s1, s2, code, st=None):
 
 
 @guarded('C19')
+def run_noscale_pair(w, tname, s1, s2, code, st=None):
+    """units without a common scale: the same amount in both units (the only
+    candidates for equality without a converter, zero included)"""
+    cls = w.types[tname]
+    x = O.val(code)
+    conv = bool(list(cls.registered_converters()))
+    out = []
+    for h1 in holders(x):
+        for h2 in holders(x):
+            q1, q2 = cls(h1, w.units[s1]), cls(h2, w.units[s2])
+            if st is not None:
+                st.transitions += 1
+            if q1 == q2:
+                if st is not None:
+                    st.evaluations += 1
+                    st.outcomes['equal-noscale'] += 1
+                tag = 'C19:qty-hash:' + (
+                    'same-unit' if s1 == s2 else
+                    'converter' if conv else 'noscale-cross-unit')
+                out += coherent(q1, q2, f"{q1!r} == {q2!r}", tag)
+            elif st is not None:
+                st.outcomes['unequal-noscale'] += 1
+    return out
+
+
+@guarded('C19')
 def run_unit_pair(w, s1, s2, st=None):
     u1, u2 = w.units[s1], w.units[s2]
     if st is not None:
@@ -185,6 +211,17 @@ def run_terms(w):
                                          (s, -1)])],
         [Term([(2, 2)]), Term([(4, 1)]), Term([(O.dec('D:0.25'), -1)])],
         [Term([(km, 2), (m, -1)]), Term([(10 ** 6, 1), (m, 1)])],
+        # units of one type without reference unit, given in both orders
+        [Term([(w.units['K'], 1), (w.units['°C'], 1)]),
+         Term([(w.units['°C'], 1), (w.units['K'], 1)])],
+        [Term([(w.units['EUR'], 1), (w.units['USD'], -1)]),
+         Term([(w.units['USD'], -1), (w.units['EUR'], 1)]),
+         Term([(w.units['USD'], 1)]).reciprocal() * Term([(w.units['EUR'],
+                                                           1)])],
+        [Term([(w.units['n2'], 2), (w.units['n1'], 1), (m, 1)]),
+         Term([(m, 1), (w.units['n1'], 1), (w.units['n2'], 2)]),
+         Term([(w.units['n1'], 1), (m, 1), (w.units['n2'], 1),
+               (w.units['n2'], 1)])],
     ]
     for g in groups:
         for a in g:
@@ -207,7 +244,17 @@ def part(tnames, amts):
                 st.paths += 1
                 for sig, msg in run_unit_pair(w, s1, s2, st):
                     st.violation(sig, msg, {'units': [s1, s2]})
-                if w.um[s1].scale is None or tm.quantum is not None:
+                if tm.quantum is not None:
+                    continue
+                if w.um[s1].scale is None or w.um[s2].scale is None:
+                    for code in list(amts[:4]) + ['i:0', 'D:0.00']:
+                        st.paths += 1
+                        st.state((tname, s1, s2, code, 'noscale'),
+                                 nontrivial=s1 != s2)
+                        for sig, msg in run_noscale_pair(w, tname, s1, s2,
+                                                         code, st):
+                            st.violation(sig, msg, {'noscale': [tname, s1, s2,
+                                                                code]})
                     continue
                 for code in amts:
                     st.paths += 1
@@ -244,6 +291,8 @@ def replay(case):
         return run_unit_pair(w, *case['units'])
     if 'qty' in case:
         return run_qty_pair(w, *case['qty'])
+    if 'noscale' in case:
+        return run_noscale_pair(w, *case['noscale'])
     if 'converted' in case:
         return run_converted_eq(w, case['converted'])
     if 'rates' in case:
@@ -270,7 +319,8 @@ def run(tier, seed):
              "ordered unit pairs (unit equality) and, for linear types, all "
              "ordered unit pairs x amount alphabet x {Decimal, Fraction}^2 "
              "with the partner amount chosen so that the quantities are "
-             "equal; groups of equal terms and exchange rates; quantities "
+             "equal; for units without a common scale the same amount (zero "
+             "included) in both units; groups of equal terms and exchange rates; quantities "
              "equal through converters. Only pairs the implementation "
              "reports equal are judged. non-trivial = different units",
         level_text="bounded exhaustive enumeration of equal pairs",
